@@ -319,6 +319,15 @@ type TypeCheckOptions struct {
 	GotAnyIsRuntimeChecked bool
 }
 
+// The `none` literal has the type `?any` but conforms to every option type:
+// where the checked value is the literal itself (or a block that results in it), the `any` in its type needs no runtime validation.
+func noneLiteralOptions(expr ast.AnalyzedExpression, options TypeCheckOptions) TypeCheckOptions {
+	if expr != nil && expr.Kind() == ast.NoneLiteralExpressionKind {
+		options.GotAnyIsRuntimeChecked = true
+	}
+	return options
+}
+
 func (self *Analyzer) TypeCheck(got ast.Type, expected ast.Type, options TypeCheckOptions) *CompatibilityError {
 	// allow the `any` type if it is expected
 	switch expected.Kind() {
